@@ -1,8 +1,8 @@
 (* C16 property theorems: frequent kernel sequences count exactly the kernels launched under each operator. *)
-From Coq Require Import Sorted.
+From Coq Require Import Permutation Sorted.
 From HTA.lib Require Import Base.
 From HTA.model Require Import C16_Model.
-From HTA.proof Require Import C16_Proofs.
+From HTA.proof Require Import C16_Proofs C16_More.
 From HTA.proof Require Import Scale C16_Scale.
 Open Scope Z_scope.
 
@@ -45,3 +45,27 @@ Theorem C16_resolution_independent : forall k l op minlen, 0 < k ->
   patterns (instances (scale_evs k l) op minlen) = map (spat k) (patterns (instances l op minlen)).
 Proof. exact C16_scale. Qed.
 Print Assumptions C16_resolution_independent.
+
+(* which instances are considered: exactly the rows whose name matches, at the shallowest depth at which the name occurs, that launch
+   at least minlen device activities -- in trace order, each turned into the instance of its own subtree (inst_of) *)
+Theorem C16_instances_exact : forall l op minlen,
+  exists sel, instances l op minlen = map (inst_of l) sel /\
+    (forall e, In e sel <->
+       In e (cands l op) /\ (forall c, In c (cands l op) -> depth16 l e <= depth16 l c) /\ minlen <= nk16 l e) /\
+    (exists keep, sel = filter keep (cands l op)).
+Proof. exact instances_exact. Qed.
+Print Assumptions C16_instances_exact.
+
+(* the pattern of an instance lists every device activity beneath it exactly once (a rearrangement, by start time) *)
+Theorem C16_pattern_is_rearrangement : forall l, Permutation.Permutation (sort_k l) l.
+Proof. exact sort_k_perm. Qed.
+Print Assumptions C16_pattern_is_rearrangement.
+
+(* conservation over the whole table: every instance is counted in exactly one row, so the counts add up to the number of instances
+   and the two duration columns to the instances' totals *)
+Theorem C16_table_conserves : forall is,
+  sumZ (map (fun r => snd (fst (fst r))) (patterns is)) = Z.of_nat (List.length is) /\
+  sumZ (map (fun r => snd (fst r)) (patterns is)) = sumZ (map i_gpu is) /\
+  sumZ (map (fun r => snd r) (patterns is)) = sumZ (map i_cpu is).
+Proof. exact table_conserves. Qed.
+Print Assumptions C16_table_conserves.
